@@ -589,7 +589,15 @@ func (w *WAL) Set(key []byte, val []byte) error {
 		return err
 	}
 	w.metrics.IncrementCounter("stable_sets", 1)
-	return w.metaDB.SetStable(key, val)
+	if err := w.metaDB.SetStable(key, val); err != nil {
+		// If we raced with Close the store may already be gone: that is ErrClosed
+		// for the caller, not a storage error.
+		if cerr := w.checkClosed(); cerr != nil {
+			return cerr
+		}
+		return err
+	}
+	return nil
 }
 
 // Get implements raft.StableStore
@@ -598,7 +606,16 @@ func (w *WAL) Get(key []byte) ([]byte, error) {
 		return nil, err
 	}
 	w.metrics.IncrementCounter("stable_gets", 1)
-	return w.metaDB.GetStable(key)
+	val, err := w.metaDB.GetStable(key)
+	if err != nil {
+		// If we raced with Close the store may already be gone: that is ErrClosed
+		// for the caller, not a storage error.
+		if cerr := w.checkClosed(); cerr != nil {
+			return nil, cerr
+		}
+		return nil, err
+	}
+	return val, nil
 }
 
 // SetUint64 implements raft.StableStore. We assume the same key space as Set
